@@ -156,6 +156,49 @@ def run(chk):
                         chk.ob("O17.2", f"EsClient.{name}: argument `{short(a, 40)}` handed to the guard is re-iterable", False, c,
                                f"`{short(e, 60)}` is a single-use iterator: the first attempt consumes it and every retry sends nothing yet reports success")
 
+    # the work must happen INSIDE the guarded call: a target that is a generator function only creates a generator there; the requests are then sent while the caller iterates,
+    # outside the retry loop (decided by parsing the installed library source of elasticsearch.helpers.<name>)
+    import importlib.util as _ilu
+
+    def _lib_generator(dotted_name):
+        parts = dotted_name.split(".")
+        if parts[:2] != ["elasticsearch", "helpers"] or len(parts) != 3:
+            return None
+        try:
+            spec = _ilu.find_spec("elasticsearch.helpers")
+        except (ImportError, ValueError):
+            return None
+        if spec is None or not spec.submodule_search_locations:
+            return None
+        import os as _os
+        for d_ in spec.submodule_search_locations:
+            for fn_ in sorted(_os.listdir(d_)):
+                if fn_.endswith(".py"):
+                    try:
+                        t_ = ast.parse(open(_os.path.join(d_, fn_), encoding="utf-8").read())
+                    except (OSError, SyntaxError):
+                        continue
+                    for n_ in t_.body:
+                        if isinstance(n_, (ast.FunctionDef, ast.AsyncFunctionDef)) and n_.name == parts[2]:
+                            own = [x for x in ast.walk(n_) if isinstance(x, (ast.Yield, ast.YieldFrom))]
+                            inner = {id(x) for f_ in ast.walk(n_) if isinstance(f_, (ast.FunctionDef, ast.AsyncFunctionDef, ast.Lambda)) and f_ is not n_ for x in ast.walk(f_)}
+                            return any(id(x) not in inner for x in own)
+        return None
+
+    for name, f in em.items():
+        for c in source.calls_in(f):
+            if u(c.func) == "self.guarded" and c.args:
+                tgt = dotted(c.args[0]) or ""
+                isgen = _lib_generator(tgt) if tgt.startswith("elasticsearch.helpers.") else False
+                iterated = isinstance(source.parent(c), (ast.For, ast.AsyncFor, ast.comprehension)) and getattr(source.parent(c), "iter", None) is c
+                if tgt.startswith("elasticsearch.helpers.") and isgen is None:
+                    chk.unknown("O17.2", f"library function {tgt} not found in the installed elasticsearch.helpers sources", c)
+                    continue
+                ok = not isgen and not iterated
+                chk.ob("O17.2", f"EsClient.{name}: the guarded target does its work when called (not a lazy generator)", ok, c,
+                       "" if ok else f"{tgt or short(c.args[0], 40)} {'is a generator function' if isgen else 'result is iterated by the caller'}: the requests are sent outside the retry loop, so nothing is retried or converted into a Rally error",
+                       key=f"{_M}:EsClient.{name}:eager-target")
+
     # the guard is the ONLY retry layer of the store client: a call handed to it must not switch on the library's own retry / back-off (attempts and pauses would multiply)
     LIB_RETRY = {"max_retries", "initial_backoff", "max_backoff", "retry_on_timeout", "retry_on_status"}
     n_g = 0
@@ -367,6 +410,18 @@ def run(chk):
             if end is not None:
                 chk.ob("O17.3", f"1 + 10 attempts, then a raise: {label}", attempts == 11 and end == "raise", h, f"simulated `{u(L.test)}` with the handler's own tests: {attempts} attempt(s), ends by {end}",
                        key=f"{_M}:EsClient.guarded:attempts:{label}")
+    # the error path itself must not fail: every %-formatted message of the guard takes a tuple LITERAL with one element per placeholder (a bare operand that can itself be a
+    # tuple, like the transport's collected errors, is unpacked as the argument list -> TypeError instead of the Rally error that names the cause)
+    for n in walk_body(gd):
+        if isinstance(n, ast.BinOp) and isinstance(n.op, ast.Mod) and isinstance(n.left, (ast.Constant, ast.JoinedStr)):
+            ltxt = "".join(str(v.value) for v in n.left.values if isinstance(v, ast.Constant)) if isinstance(n.left, ast.JoinedStr) else n.left.value
+            if not isinstance(ltxt, str):
+                continue
+            import re as _re17
+            nph = len(_re17.findall(r"%[-#0 +]*\d*(?:\.\d+)?[sdrfxi]", ltxt.replace("%%", "")))
+            ok = isinstance(n.right, ast.Tuple) and len(n.right.elts) == nph and not any(isinstance(e_, ast.Starred) for e_ in n.right.elts)
+            chk.ob("O17.4", f"message at line {n.lineno}: {nph} placeholder(s) filled from a tuple literal of the same length", ok, n, f"right operand: {short(n.right, 70)}",
+                   key=f"{_M}:EsClient.guarded:format:{ltxt[:40]}")
     # dead arms must agree with their shadow
     for i, (h, names) in enumerate(handlers):
         shadows = [hh for hh, pn in handlers[:i] if all(H.catches(pn, nm) for nm in names)] if i else []
